@@ -297,6 +297,7 @@ pub fn configs(thorough: bool) -> Vec<Config> {
         for c in [Ctor::Slice3, Ctor::VecExcess, Ctor::Str] {
             family(&mut v, c, 3, 1);
         }
+        family(&mut v, Ctor::VecExcess, 3, 2);
     } else {
         for c in all {
             family(&mut v, c, 2, 3);
